@@ -22,6 +22,7 @@ func checkC12(c *Ctx) {
 	ruleLoadDirectoryCallback(c)
 	ruleWalkProtocol(c, c.P, "R12.4")
 	ruleReadIsParse(c)
+	ruleParsedConfigNotAltered(c, "R12.10")
 	c.importRules(decodeTargetRules, []string{"R10.11"}, "R12.8") // a file is decoded into a fresh zero value: nothing of another (valid or broken) file leaks into it
 	c.MinCount("R12.6", 1)
 	// R12.5 "a file that fails to parse is reported and skipped" needs the parse chain to report every failure
@@ -209,7 +210,8 @@ func ruleDirTable(c *Ctx) {
 	}
 	c.Fn(shortFn(fn))
 	_, di := c.P.Struct(pkgConfig, "dirInfo")
-	if !c.Require(di != nil, "R12.2", "anchor:config.dirInfo", "dirInfo struct not found") {
+	direct := directLoaderCalls(fn, ld)
+	if !c.Require(di != nil || len(direct) > 0, "R12.2", "anchor:config.dirInfo", "neither the dirInfo table nor direct calls of loadDirectory with constant directories found") {
 		return
 	}
 	// rows: stores into &array[i].field
@@ -260,6 +262,12 @@ func ruleDirTable(c *Ctx) {
 					}
 				}
 			}
+		}
+	}
+	if len(rows) == 0 {
+		// the table written out: one call per directory with the directory, the label and the map given directly
+		for i, dc := range direct {
+			rows[int64(i)] = &row{root: dc.root, label: dc.label, mapPath: dc.mapPath, pos: dc.call.Pos()}
 		}
 	}
 	var idxs []int
@@ -319,6 +327,18 @@ func ruleDirTable(c *Ctx) {
 			if !ok || call.Call.StaticCallee() != ld {
 				continue
 			}
+			if len(direct) > 0 && di == nil {
+				// direct form: the directory goes where loadDirectory takes the directory it walks
+				okPos := false
+				for _, dc := range direct {
+					if dc.call == call {
+						okPos = dc.rootIsWalked
+					}
+				}
+				c.Check(okPos, "R12.2", fmt.Sprintf("config.LoadDeviceConfigs/call(loadDirectory)@%s", lastPathElems(constArgWithSlash(call), 2)), c.P.Pos(call.Pos()),
+					"the directory is passed as the parameter loadDirectory walks", "the constant directory is not passed as the parameter that loadDirectory walks")
+				continue
+			}
 			names := []string{}
 			for _, a := range call.Call.Args {
 				names = append(names, lastFieldName(a))
@@ -333,6 +353,77 @@ func ruleDirTable(c *Ctx) {
 				"called with (row.root, row.identifier, row.configMap)", "loadDirectory is called with "+strings.Join(names, ",")+", expected root,identifier,configMap of the same row")
 		}
 	}
+}
+
+type directLoad struct {
+	call                 *ssa.Call
+	root, label, mapPath string
+	rootIsWalked         bool
+}
+
+// directLoaderCalls: calls loadDirectory("dir/ectory", "label", cfg.X.Y) in fn - the directory table written out.
+func directLoaderCalls(fn, ld *ssa.Function) []directLoad {
+	var out []directLoad
+	for _, b := range fn.Blocks {
+		for _, in := range b.Instrs {
+			call, ok := in.(*ssa.Call)
+			if !ok || call.Call.StaticCallee() != ld {
+				continue
+			}
+			d := directLoad{call: call}
+			rootPos := -1
+			for i, a := range call.Call.Args {
+				if k, ok := a.(*ssa.Const); ok && k.Value != nil && k.Value.Kind() == constant.String {
+					if sv := constant.StringVal(k.Value); strings.Contains(sv, "/") {
+						d.root, rootPos = sv, i
+					} else {
+						d.label = sv
+					}
+					continue
+				}
+				if _, isMap := a.Type().Underlying().(*types.Map); isMap {
+					d.mapPath = fieldPath(a)
+				}
+			}
+			if d.root == "" || d.mapPath == "" || d.mapPath == "?" {
+				continue
+			}
+			// the parameter at that position is what loadDirectory hands to filepath.Walk / WalkDir
+			if rootPos < len(ld.Params) {
+				prm := ld.Params[rootPos]
+				if prm.Referrers() != nil {
+					for _, r := range *prm.Referrers() {
+						if wc, ok := r.(*ssa.Call); ok {
+							if cal := wc.Call.StaticCallee(); cal != nil && cal.Pkg != nil && cal.Pkg.Pkg.Path() == "path/filepath" && strings.HasPrefix(cal.Name(), "Walk") && len(wc.Call.Args) > 0 && wc.Call.Args[0] == ssa.Value(prm) {
+								d.rootIsWalked = true
+							}
+						}
+					}
+				}
+			}
+			out = append(out, d)
+		}
+	}
+	return out
+}
+
+func constArgWithSlash(call *ssa.Call) string {
+	for _, a := range call.Call.Args {
+		if k, ok := a.(*ssa.Const); ok && k.Value != nil && k.Value.Kind() == constant.String {
+			if sv := constant.StringVal(k.Value); strings.Contains(sv, "/") {
+				return sv
+			}
+		}
+	}
+	return "?"
+}
+
+func lastPathElems(p string, n int) string {
+	parts := strings.Split(p, "/")
+	if len(parts) > n {
+		parts = parts[len(parts)-n:]
+	}
+	return strings.Join(parts, "/")
 }
 
 func lastFieldName(v ssa.Value) string {
@@ -796,3 +887,61 @@ func knownNilOnPath(p *Path, t *Term) bool {
 	}
 	return false
 }
+
+// ruleParsedConfigNotAltered: R12.10 (imported by C14 as R14.8). What a device is built from is what the parser made of
+// its file: outside the parser (ParseData and the stage functions it is split into) no function of the repository stores
+// into a field of a config.Config value. A loader that "completes" parsed configurations - an exit sequence for keyboards
+// whose file gave none - makes devices act on something no file says (C14: "with an empty exit sequence the signal is
+// never raised"), and the parser has no way to tell an absent list from an explicitly empty one afterwards.
+func ruleParsedConfigNotAltered(c *Ctx, rule string) {
+	pf := newParserFacts(c)
+	if !c.Require(pf.err == nil, rule, "config.ParseData", fmt.Sprint(pf.err)) {
+		return
+	}
+	n, bad, badPos := 0, "", ""
+	for _, fn := range c.P.Funcs {
+		top := topFunc(fn)
+		if pf.region[top] || pf.region[fn] || len(fn.Blocks) == 0 || strings.HasSuffix(funcPkgPath(top), "/controls") {
+			continue
+		}
+		for _, b := range fn.Blocks {
+			for _, in := range b.Instrs {
+				var fa *ssa.FieldAddr
+				switch x := in.(type) {
+				case *ssa.Store:
+					fa, _ = x.Addr.(*ssa.FieldAddr)
+				case *ssa.MapUpdate:
+					// a map that is a field of a Config reached from a Config value
+					if ld, ok := x.Map.(*ssa.UnOp); ok {
+						fa, _ = ld.X.(*ssa.FieldAddr)
+					}
+				}
+				if fa == nil {
+					continue
+				}
+				named, ok := deref(fa.X.Type()).(*types.Named)
+				if !ok || named.Obj().Pkg() == nil || named.Obj().Pkg().Path() != pkgConfig || named.Obj().Name() != "Config" {
+					continue
+				}
+				// a Config being assembled in a local literal of this function is its own (tests helpers, defaults): only
+				// values that came from elsewhere count
+				if a, isAlloc := fa.X.(*ssa.Alloc); isAlloc && wholeStore(a) == nil {
+					continue
+				}
+				n++
+				if bad == "" {
+					bad = fmt.Sprintf("%s stores into Config.%s outside the parser: the configuration a device is built from is then not what its file says", shortFn(fn), fieldOfAddr(fa).Name())
+					badPos = c.P.Pos(in.Pos())
+				}
+			}
+		}
+	}
+	if bad != "" {
+		c.Bad(rule, "config.Config/fields-written-by-the-parser-only", badPos, bad)
+	} else {
+		c.OK(rule, "config.Config/fields-written-by-the-parser-only", "-", "no store into a field of a config.Config value outside ParseData and its stage functions")
+	}
+}
+
+// parsedConfigRules: R12.10 alone (imported by C14).
+func parsedConfigRules(c *Ctx) { ruleParsedConfigNotAltered(c, "R12.10") }
